@@ -16,49 +16,49 @@ From Coq Require Import Lia.
 Implicit Types (g h : heap) (i n b : positive) (d : rdata) (ts cs : list tree) (F : forest).
 
 (** * what a frame preserves *)
-Lemma Frame_preserves ns ss h h' k :
-  Frame ns ss h h' -> k ∈ h_live h ->
+Lemma Ext_preserves ns ss h h' k :
+  Ext ns ss h h' -> k ∈ h_live h ->
   h_lnk h' !! k = h_lnk h !! k /\ h_dat h' !! k = h_dat h !! k /\ h_str h' !! k = h_str h !! k /\
   h_own h' !! k = h_own h !! k /\ k ∈ h_live h'.
 Proof.
-  intros Fr Hk. destruct (Frame_old _ _ _ _ _ Fr Hk) as [Hn Hs].
-  split_and!; [by apply Fr|by apply Fr|by apply Fr| |by apply (fr_live _ _ _ _ Fr)].
-  apply (fr_own _ _ _ _ Fr). apply Closed_live; [apply Fr|done].
+  intros Fr Hk. destruct (Ext_old _ _ _ _ _ Fr Hk) as [Hn Hs].
+  split_and!; [by apply Fr|by apply Fr|by apply Fr| |by apply (xt_live _ _ _ _ Fr)].
+  apply (xt_own _ _ _ _ Fr). apply Closed_live; [apply Fr|done].
 Qed.
 
-Lemma Frame_nil_eq h h' :
-  Frame [] [] h h' ->
+Lemma Ext_nil_eq h h' :
+  Ext [] [] h h' ->
   h_lnk h' = h_lnk h /\ h_dat h' = h_dat h /\ h_str h' = h_str h /\ h_live h' = h_live h /\
   h_hooks h' = h_hooks h /\ lib_live h' = lib_live h.
 Proof.
   intros Fr.
   assert (Hlive : h_live h' = h_live h).
-  { apply set_eq. intros k. apply (fr_live _ _ _ _ Fr); apply not_elem_of_nil. }
+  { apply set_eq. intros k. apply (xt_live _ _ _ _ Fr); apply not_elem_of_nil. }
   split_and!; try (apply map_eq; intros k; apply Fr; apply not_elem_of_nil); try done; [apply Fr|].
   unfold lib_live. rewrite Hlive. apply set_eq. intros k. rewrite !elem_of_filter.
   split; intros [H1 H2]; (split; [|done]).
-  - rewrite <- (fr_own _ _ _ _ Fr); [done|]. apply Closed_live; [apply Fr|done].
-  - rewrite (fr_own _ _ _ _ Fr); [done|]. apply Closed_live; [apply Fr|done].
+  - rewrite <- (xt_own _ _ _ _ Fr); [done|]. apply Closed_live; [apply Fr|done].
+  - rewrite (xt_own _ _ _ _ Fr); [done|]. apply Closed_live; [apply Fr|done].
 Qed.
 
 (** * after a failed call *)
-Lemma Failed_WF h h' F : WF h F -> Frame [] [] h h' -> WF h' F.
+Lemma Failed_WF h h' F : WF h F -> Ext [] [] h h' -> WF h' F.
 Proof.
-  intros W Fr. destruct (Frame_nil_eq _ _ Fr) as (E1 & E2 & E3 & E4 & E5 & E6). constructor.
+  intros W Fr. destruct (Ext_nil_eq _ _ Fr) as (E1 & E2 & E3 & E4 & E5 & E6). constructor.
   - apply W.
   - rewrite E1. apply W.
   - rewrite E2. apply W.
   - apply W.
   - intros b Hb. rewrite E4. by apply (wf_owned_live _ _ W).
-  - intros b Hb. rewrite (fr_own _ _ _ _ Fr); [by apply (wf_owned_lib _ _ W)|by apply (wf_fresh _ _ W)].
-  - intros b Hb. pose proof (wf_fresh _ _ W b Hb). pose proof (fr_next _ _ _ _ Fr). lia.
+  - intros b Hb. rewrite (xt_own _ _ _ _ Fr); [by apply (wf_owned_lib _ _ W)|by apply (wf_fresh _ _ W)].
+  - intros b Hb. pose proof (wf_fresh _ _ W b Hb). pose proof (xt_next _ _ _ _ Fr). lia.
   - apply W.
 Qed.
-Lemma Failed_NoLeak h h' F : NoLeak h F -> Frame [] [] h h' -> NoLeak h' F.
-Proof. intros NL Fr b Hb. destruct (Frame_nil_eq _ _ Fr) as (_ & _ & _ & _ & _ & E6). apply NL. by rewrite <- E6. Qed.
-Lemma Failed_KeysReadable h h' F : KeysReadable h F -> Frame [] [] h h' -> KeysReadable h' F.
+Lemma Failed_NoLeak h h' F : NoLeak h F -> Ext [] [] h h' -> NoLeak h' F.
+Proof. intros NL Fr b Hb. destruct (Ext_nil_eq _ _ Fr) as (_ & _ & _ & _ & _ & E6). apply NL. by rewrite <- E6. Qed.
+Lemma Failed_KeysReadable h h' F : KeysReadable h F -> Ext [] [] h h' -> KeysReadable h' F.
 Proof.
-  intros KR Fr e b He Hb. destruct (Frame_nil_eq _ _ Fr) as (_ & _ & E3 & E4 & _). rewrite E3, E4. by eapply KR.
+  intros KR Fr e b He Hb. destruct (Ext_nil_eq _ _ Fr) as (_ & _ & E3 & E4 & _). rewrite E3, E4. by eapply KR.
 Qed.
 
 (** * after a successful call *)
@@ -70,7 +70,7 @@ Proof. unfold owned. by rewrite flat_snoc, owned_fl_app. Qed.
 Section Success.
   Context (h h' : heap) (F : forest) (tc : tree).
   Hypothesis W : WF h F.
-  Hypothesis Fr : Frame (nids (flat_t tc)) (sids (flat_t tc)) h h'.
+  Hypothesis Fr : Ext (nids (flat_t tc)) (sids (flat_t tc)) h h'.
   Hypothesis ND : NoDup (nids (flat_t tc) ++ sids (flat_t tc)).
   Hypothesis C : Chain_ok h' [tc] None.
   Hypothesis R : Forall ref_ok (flat_t tc).
@@ -78,9 +78,9 @@ Section Success.
   Local Lemma old_lt b : b ∈ owned F -> (b < h_next h)%positive.
   Proof. apply W. Qed.
   Local Lemma old_notin b : b ∈ owned F -> b ∉ nids (flat_t tc) /\ b ∉ sids (flat_t tc).
-  Proof. intros Hb. eapply Frame_old_lt; [exact Fr|by apply old_lt]. Qed.
+  Proof. intros Hb. eapply Ext_old_lt; [exact Fr|by apply old_lt]. Qed.
   Local Lemma new_ge b : b ∈ owned_fl (flat_t tc) -> (h_next h <= b)%positive.
-  Proof. intros Hb. rewrite owned_fl_split in Hb. by destruct (fr_new _ _ _ _ Fr b Hb) as [? _]. Qed.
+  Proof. intros Hb. rewrite owned_fl_split in Hb. by destruct (xt_new _ _ _ _ Fr b Hb) as [? _]. Qed.
 
   Lemma Done_ids_nodup : NoDup (ids (F ++ [tc])).
   Proof.
@@ -108,26 +108,26 @@ Section Success.
           apply elem_of_list_lookup in Hk as [j Hj].
           rewrite (heap_lnk_of_lookup_child _ i d ks j k NDi (Hfl _ He) Hj).
           by destruct (ck_in _ _ _ C i d ks j k (Hfl1 _ He) Hj) as [_ H].
-      + rewrite (fr_lnk _ _ _ _ Fr) by (by rewrite nids_flat_t). rewrite (wf_lnk _ _ W).
+      + rewrite (xt_lnk _ _ _ _ Fr) by (by rewrite nids_flat_t). rewrite (wf_lnk _ _ W).
         symmetry. by apply (heap_lnk_of_remove_root_lookup _ _ _ _ NDi HP).
     - apply map_eq. intros k. destruct (decide (k ∈ ids_t tc)) as [Hin|Hnin].
       + rewrite ids_t_flat in Hin. apply elem_of_list_fmap in Hin as ([[i d] ks] & -> & He). cbn.
         rewrite (heap_dat_of_lookup _ i d ks NDi (Hfl _ He)).
         by destruct (ck_dat _ _ _ C i d ks (Hfl1 _ He)) as [_ H].
-      + rewrite (fr_dat _ _ _ _ Fr) by (by rewrite nids_flat_t). rewrite (wf_dat _ _ W).
+      + rewrite (xt_dat _ _ _ _ Fr) by (by rewrite nids_flat_t). rewrite (wf_dat _ _ W).
         symmetry. by apply (heap_dat_of_remove_root_lookup _ _ _ _ NDi HP).
     - rewrite owned_snoc. apply NoDup_app. split; [apply W|]. split.
       + intros x Hx Hx'. pose proof (old_lt x Hx). pose proof (new_ge x Hx'). lia.
       + by rewrite owned_fl_split.
     - intros b Hb. rewrite owned_snoc in Hb. apply elem_of_app in Hb as [Hb|Hb].
-      + destruct (old_notin b Hb). apply (fr_live _ _ _ _ Fr); [done..|]. by apply (wf_owned_live _ _ W).
-      + rewrite owned_fl_split in Hb. by destruct (fr_new _ _ _ _ Fr b Hb) as (_ & _ & ? & _).
+      + destruct (old_notin b Hb). apply (xt_live _ _ _ _ Fr); [done..|]. by apply (wf_owned_live _ _ W).
+      + rewrite owned_fl_split in Hb. by destruct (xt_new _ _ _ _ Fr b Hb) as (_ & _ & ? & _).
     - intros b Hb. rewrite owned_snoc in Hb. apply elem_of_app in Hb as [Hb|Hb].
-      + rewrite (fr_own _ _ _ _ Fr) by (by apply old_lt). by apply (wf_owned_lib _ _ W).
-      + rewrite owned_fl_split in Hb. by destruct (fr_new _ _ _ _ Fr b Hb) as (_ & _ & _ & ?).
+      + rewrite (xt_own _ _ _ _ Fr) by (by apply old_lt). by apply (wf_owned_lib _ _ W).
+      + rewrite owned_fl_split in Hb. by destruct (xt_new _ _ _ _ Fr b Hb) as (_ & _ & _ & ?).
     - intros b Hb. rewrite owned_snoc in Hb. apply elem_of_app in Hb as [Hb|Hb].
-      + pose proof (old_lt b Hb). pose proof (fr_next _ _ _ _ Fr). lia.
-      + rewrite owned_fl_split in Hb. by destruct (fr_new _ _ _ _ Fr b Hb) as (_ & ? & _).
+      + pose proof (old_lt b Hb). pose proof (xt_next _ _ _ _ Fr). lia.
+      + rewrite owned_fl_split in Hb. by destruct (xt_new _ _ _ _ Fr b Hb) as (_ & ? & _).
     - rewrite flat_snoc. apply Forall_app. split; [apply W|done].
   Qed.
 
@@ -138,8 +138,8 @@ Section Success.
     destruct (decide (b ∈ nids (flat_t tc) ++ sids (flat_t tc))) as [Hin|Hnin].
     - right. by rewrite owned_fl_split.
     - left. apply not_elem_of_app in Hnin as [H1 H2]. apply NL. apply elem_of_filter.
-      assert (Hl : b ∈ h_live h) by (by apply (fr_live _ _ _ _ Fr)).
-      split; [|done]. rewrite <- (fr_own _ _ _ _ Fr); [done|]. apply Closed_live; [apply Fr|done].
+      assert (Hl : b ∈ h_live h) by (by apply (xt_live _ _ _ _ Fr)).
+      split; [|done]. rewrite <- (xt_own _ _ _ _ Fr); [done|]. apply Closed_live; [apply Fr|done].
   Qed.
 
   (** ownership of the copy and of the forest are disjoint; the copy's blocks are all new *)
@@ -151,7 +151,7 @@ Section Success.
   Lemma Done_fresh : forall b, b ∈ owned [tc] -> (h_next h <= b)%positive /\ b ∉ h_live h.
   Proof.
     intros b Hb. unfold owned in Hb. rewrite flat_singleton in Hb. pose proof (new_ge b Hb) as Hge.
-    split; [done|]. by destruct (fr_closed0 _ _ _ _ Fr b Hge) as [? _].
+    split; [done|]. by destruct (xt_closed0 _ _ _ _ Fr b Hge) as [? _].
   Qed.
 
   (** the root of the copy has no sibling links *)
@@ -266,7 +266,7 @@ Section Copy.
         h_hooks h' = h_hooks h /\ lib_live h' = lib_live h /\ Closed h' /\ (complete t -> ofail oracle h h')) \/
        (exists tc, r = Some (tid tc) /\ WF h' (F ++ [tc]) /\ (NoLeak h F -> NoLeak h' (F ++ [tc])) /\
           copy_of h' t tc /\ complete t /\
-          Frame (nids (flat_t tc)) (sids (flat_t tc)) h h' /\
+          Ext (nids (flat_t tc)) (sids (flat_t tc)) h h' /\
           h_lnk h' !! tid tc = Some (None, None) /\
           (forall b, b ∈ owned F -> b ∉ owned [tc]) /\
           (forall b, b ∈ owned [tc] -> (h_next h <= b)%positive /\ b ∉ h_live h) /\
@@ -275,7 +275,7 @@ Section Copy.
     intros W C Hsrc.
     destruct (cJSON_Duplicate_sim oracle h t C Hsrc) as (r & h' & Hrun & [(-> & Fr & Hof)|(tc & -> & HD)]).
     - exists None, h'. split; [done|]. left.
-      destruct (Frame_nil_eq _ _ Fr) as (E1 & E2 & E3 & E4 & E5 & E6).
+      destruct (Ext_nil_eq _ _ Fr) as (E1 & E2 & E3 & E4 & E5 & E6).
       split_and!; try done.
       + exact (Failed_WF _ _ _ W Fr).
       + intros NL. exact (Failed_NoLeak _ _ _ NL Fr).
@@ -300,7 +300,7 @@ Section Copy.
         h_hooks h' = h_hooks h /\ lib_live h' = lib_live h /\ Closed h' /\ ofail oracle h h') \/
        (exists tc, r = Some (tid tc) /\ WF h' (F ++ [tc]) /\ (NoLeak h F -> NoLeak h' (F ++ [tc])) /\
           copy_of h' t tc /\
-          Frame (nids (flat_t tc)) (sids (flat_t tc)) h h' /\
+          Ext (nids (flat_t tc)) (sids (flat_t tc)) h h' /\
           h_lnk h' !! tid tc = Some (None, None) /\
           (forall b, b ∈ owned F -> b ∉ owned [tc]) /\
           (forall b, b ∈ owned [tc] -> (h_next h <= b)%positive /\ b ∉ h_live h) /\
@@ -329,4 +329,80 @@ Proof.
   destruct (dup_copy (fun _ => false) h F p t W C Hp Hs Hb Hh) as (r & h' & Hrun & [H|H]).
   - destruct H as (_ & _ & _ & _ & _ & _ & _ & _ & _ & _ & (j & _ & Hj)). discriminate.
   - destruct H as (tc & -> & W' & NL & Hcp & _). by exists tc, h'.
+Qed.
+
+(** * [Closed] next to [WF]: how the other simulation lemmas keep it
+    (their result heaps are [upd_maps h L D], [free_all bs h] or allocations) *)
+Lemma Closed_of_WF h F :
+  WF h F -> (forall k, (h_next h <= k)%positive -> k ∉ h_live h /\ h_str h !! k = None) -> Closed h.
+Proof.
+  intros W H k Hk. destruct (H k Hk) as [H1 H2].
+  assert (Hn : k ∉ ids F).
+  { intros Hin. pose proof (WF_ids_fresh _ _ _ W Hin). lia. }
+  split_and!; [done| | |done].
+  - rewrite (wf_lnk _ _ W). by apply heap_lnk_of_lookup_None.
+  - rewrite (wf_dat _ _ W). by apply heap_dat_of_lookup_None.
+Qed.
+Lemma Closed_upd_maps_WF h L D F' : Closed h -> WF (upd_maps h L D) F' -> Closed (upd_maps h L D).
+Proof.
+  intros C W. apply (Closed_of_WF _ F' W). intros k Hk. cbn in *. destruct (C k Hk) as (H1 & _ & _ & H4). done.
+Qed.
+Lemma Closed_free_all bs h : Closed h -> Closed (free_all bs h).
+Proof.
+  intros C k Hk. rewrite free_all_next in Hk. destruct (C k Hk) as (C1 & C2 & C3 & C4). split_and!.
+  - rewrite free_all_live. tauto.
+  - destruct (decide (k ∈ bs)); [by rewrite free_all_lnk_lookup_in|by rewrite free_all_lnk_lookup].
+  - destruct (decide (k ∈ bs)); [by rewrite free_all_dat_lookup_in|by rewrite free_all_dat_lookup].
+  - destruct (decide (k ∈ bs)); [by rewrite fa_str_lookup_in|by rewrite fa_str_lookup].
+Qed.
+Lemma Closed_bump h : Closed h -> Closed (bump h).
+Proof. intros C. apply (Ext_bump h C). Qed.
+Lemma Closed_alloc_node h : Closed h -> Closed (alloc_node_h h).
+Proof. intros C. apply (Ext_alloc_node h C). Qed.
+Lemma Closed_alloc_str h s : Closed h -> Closed (alloc_str_h h s).
+Proof. intros C. apply (Ext_alloc_str h s C). Qed.
+Lemma Closed_foreign_bytes h s p h' : Closed h -> foreign_bytes s h = Ret (p, h') -> Closed h'.
+Proof.
+  intros C [= <- <-] k Hk. cbn in *. destruct (C k) as (C1 & C2 & C3 & C4); [lia|].
+  split_and!; [|done|done|rewrite lookup_insert_ne; [done|lia]].
+  intros Hin. apply elem_of_union in Hin as [Hin|Hin]; [|done]. apply elem_of_singleton in Hin. lia.
+Qed.
+
+(** * readable keys of the extended forest (needed by the by-key queries on the copy) *)
+Lemma copy_list_elem h cs cs' c' : copy_list h cs cs' -> c' ∈ cs' -> exists c, c ∈ cs /\ copy_of h c c'.
+Proof.
+  revert cs'. induction cs as [|a r IH]; intros [|a' r'] H Hc; try done; [by apply elem_of_nil in Hc|].
+  rewrite copy_list_cons in H. destruct H as [Ha Hr]. apply elem_of_cons in Hc as [->|Hc].
+  - exists a. split; [by left|done].
+  - destruct (IH r' Hr Hc) as (c & H1 & H2). exists c. split; [by right|done].
+Qed.
+Lemma copy_of_flat h t : forall tc, copy_of h t tc ->
+  forall i' d' (ks' : list positive), (i', d', ks') ∈ flat_t tc ->
+    exists i d (ks : list positive), (i, d, ks) ∈ flat_t t /\ data_copy h d d'.
+Proof.
+  induction t as [i d cs IH] using tree_ind'. intros [j dj cs']. rewrite copy_of_unfold. intros [Hd Hl] i' d' ks' He.
+  rewrite flat_t_unfold in He. apply elem_of_cons in He as [He|He].
+  - injection He as -> -> ->. exists i, d, (tid <$> cs). split; [rewrite flat_t_unfold; by left|done].
+  - apply elem_of_flat_list in He as (c' & Hc' & He). destruct (copy_list_elem _ _ _ _ Hl Hc') as (c & Hc & Hcp).
+    rewrite Forall_forall in IH. destruct (IH c Hc c' Hcp i' d' ks' He) as (i0 & d0 & ks0 & H1 & H2).
+    exists i0, d0, ks0. split; [by eapply flat_t_child|done].
+Qed.
+
+Lemma Done_KeysReadable h h' F t tc :
+  KeysReadable h F -> Ext (nids (flat_t tc)) (sids (flat_t tc)) h h' -> copy_of h' t tc ->
+  (forall i d (ks : list positive) b, (i, d, ks) ∈ flat_t t -> rd_key d = Some b -> is_const d = true -> readable h' b) ->
+  KeysReadable h' (F ++ [tc]).
+Proof.
+  intros KR Fr Hcp Hconst e b He Hb. rewrite flat_snoc in He. apply elem_of_app in He as [He|He].
+  - destruct (KR e b He Hb) as (Hl & s & Hs & Hz).
+    destruct (Ext_preserves _ _ _ _ _ Fr Hl) as (_ & _ & E3 & _ & Hl'). split; [exact Hl'|]. exists s.
+    split; [|exact Hz]. exact (eq_trans E3 Hs).
+  - destruct e as [[i' d'] ks']. cbn in Hb.
+    destruct (copy_of_flat _ _ _ Hcp i' d' ks' He) as (i & d & ks & Het & (_ & _ & _ & _ & _ & Hk)).
+    destruct (rd_key d) as [b0|] eqn:Ek; [|congruence].
+    destruct (is_const d) eqn:Ec.
+    + rewrite Hk in Hb. injection Hb as <-. destruct (Hconst i d ks b0 Het Ek Ec) as (s & [Hl Hs] & Hz).
+      split; [done|]. by exists s.
+    + destruct Hk as (b' & Hk & (s & _ & [Hl Hs])). rewrite Hk in Hb. injection Hb as <-. split; [done|].
+      exists (cstr s ++ [0%Z]). split; [done|]. rewrite existsb_app. cbn. by rewrite orb_true_r.
 Qed.
